@@ -9,9 +9,15 @@
 
    A content is [d, kind]: kind "exact" hashes to d, every other kind (flipped, truncated,
    extended, aborted stream) hashes to nothing we name.  VerifyMem = TRUE is the code after
-   the fix (addToMemoryCache verifies); FALSE is the code as it was (F01).               *)
+   the fix (addToMemoryCache verifies); FALSE is the code as it was (F01).
+
+   LateWrite(d, c): a writer handle of the upload file that was opened BEFORE the commit is
+   used AFTER it (a PATCH still copying its body while the commit of the same upload verifies and
+   renames the file).  FenceWriters = TRUE: the commit fences such handles (what the property
+   needs); FALSE is the code as built: the handle follows the renamed file into the cache and
+   changes the committed bytes (finding F01b; reproduced over HTTP by extension X03 as X03-1). *)
 EXTENDS Integers, Sequences, FiniteSets
-CONSTANTS Digests, Kinds, VerifyMem, MaxRetries
+CONSTANTS Digests, Kinds, VerifyMem, MaxRetries, FenceWriters
 None == [d |-> "none", kind |-> "none"]
 Content == [d : Digests, kind : Kinds]
 Good(c) == c.kind = "exact"
@@ -67,7 +73,12 @@ DrainStep ==
 Expire(d) == mem[d] # None /\ mem' = [mem EXCEPT ![d] = None] /\ mmeta' = [mmeta EXCEPT ![d] = None]
              /\ UNCHANGED <<disk, dmeta, drainq, memOn>>
 
-Next == \/ \E d \in Digests, k \in Kinds : LET c == [d |-> d, kind |-> k] IN Upload(d, c) \/ RefreshDisk(d, c) \/ RefreshMem(d, c)
+LateWrite(d, c) ==
+  /\ c.d = d /\ disk[d] # None
+  /\ disk' = IF FenceWriters THEN disk ELSE [disk EXCEPT ![d] = c]
+  /\ UNCHANGED <<dmeta, mem, mmeta, drainq, memOn>>
+
+Next == \/ \E d \in Digests, k \in Kinds : LET c == [d |-> d, kind |-> k] IN Upload(d, c) \/ RefreshDisk(d, c) \/ RefreshMem(d, c) \/ LateWrite(d, c)
         \/ DrainStep \/ \E d \in Digests : Expire(d)
 Spec == Init /\ [][Next]_vars
 
